@@ -539,6 +539,10 @@ func genQuery(rng *rand.Rand, w *World, multiFunc bool) *QueryDef {
 			}
 			fn = cands[rng.Intn(len(cands))]
 		}
+		if multiFunc && rng.Intn(8) == 0 {
+			// (hazard stream) any function, supported by the field type or not
+			fn = []function.FuncType{function.Sum, function.Min, function.Max, function.Last, function.First}[rng.Intn(5)]
+		}
 		q.Selects = append(q.Selects, SelectDef{Field: f.Name, Func: fn})
 		used[f.Name] = true
 		if multiFunc && f.Type == field.SumField && rng.Intn(2) == 0 {
@@ -786,6 +790,33 @@ func protocolCase(c *core.Ctx, rng *rand.Rand) {
 	}
 	for k := range kinds {
 		c.Branch("resp-" + k)
+	}
+	if rng.Intn(3) == 0 {
+		// the same responses into a real intermediate context, and what it forwards
+		ic, err := NewIntermediate(w, q, "im0", from, []string{"im0"})
+		if err != nil {
+			panic(err)
+		}
+		c.Op(fmt.Sprintf("new 5 %d", n), stateLine(&ic.Ctx.MetricContext))
+		for _, k := range perm(rng, n) {
+			ic.Ctx.HandleResponse(rs[k], from[k])
+			c.Op(fmt.Sprintf("resp 5 %s", encodeResp(rs[k])), stateLine(&ic.Ctx.MetricContext))
+		}
+		out := ic.Finish()
+		el := "pending"
+		if out != nil {
+			el = "er"
+			if out.ErrMsg == "" {
+				pl := &protoCommonV1.TimeSeriesList{}
+				if err := pl.Unmarshal(out.Payload); err == nil {
+					el = "ok " + encodeList(pl, true)
+				}
+			} else if strings.Contains(out.ErrMsg, "not found") {
+				el = "nf"
+			}
+		}
+		c.Op("emit 5", el)
+		c.Branch("protocol-intermediate")
 	}
 	outs := map[string]bool{}
 	var lines []string
